@@ -4,8 +4,9 @@ set -e
 cd "$(dirname "$0")"
 export GOFLAGS=-mod=mod GOPROXY=off GOSUMDB=off GOTOOLCHAIN=local
 mkdir -p work evidence replays
-( cd translator && go run . -repo "${VERIF_REPO:-/repo}" -out ../coq/gen/Generated.v ) || echo "translator reported errors"
-( cd coq && coq_makefile -f _CoqProject -o Makefile >/dev/null && timeout 3000 make -j16 >/dev/null 2>&1 ) || echo "coq build incomplete (checks rebuild what they need)"
+( cd translator && go run . -repo "${VERIF_REPO:-/repo}" -outdir ../coq/gen ) || echo "translator reported errors"
+python3 tools/coqproject.py
+( cd coq && timeout 3000 make -j16 >/dev/null 2>&1 ) || echo "coq build incomplete (checks rebuild what they need)"
 cp "${VERIF_REPO:-/repo}/go.sum" harness/go.sum
 ( cd harness && go build -tags verif ./... ) || echo "harness build incomplete"
 echo setup done
